@@ -803,7 +803,7 @@ def run(ctx):
         st["bound"] = max(st["bound"], o["B"])
 
     # 1. chains under deterministic priority schedules: real pipeline vs the Lean chain model (counts and wiring)
-    cases = chain_model_cases(rng, ctx.pick(400, 4000))
+    cases = chain_model_cases(rng, ctx.pick(600, 4000))
     res = {}
     for i, c in enumerate(cases):
         c["i"] = i
@@ -825,7 +825,7 @@ def run(ctx):
     t0 = time.time()
     # 2. all shapes, random / PCT / adversarial schedules, runs of n and 2n chunks (oracle)
     cases = every_k_cases()
-    cases += [random_case(rng, quick) for _ in range(ctx.pick(700, 9000))]
+    cases += [random_case(rng, quick) for _ in range(ctx.pick(1100, 6500))]
     res2 = {}
     for i, c in enumerate(cases):
         c["i"] = i
@@ -842,7 +842,7 @@ def run(ctx):
     t0 = time.time()
     # 3. stand-alone mailbox: the gate condition at every fetch of a lazy mailbox (also diffed with the mailbox model)
     from props import c05
-    gcases = gate_cases(rng, ctx.pick(2000, 25000))
+    gcases = gate_cases(rng, ctx.pick(3000, 25000))
     gres = {}
     for i, c in enumerate(gcases):
         c["i"] = i
